@@ -83,12 +83,28 @@ pub struct Ov4 {
     pub g: Vec<OvGroup>,
 }
 
+/// list names that are proper prefixes of each other (and of a scalar's name); one list has items
+/// with attributes, so that the tag content continues after the name
+#[derive(Serialize, Deserialize, PartialEq, Debug, Clone)]
+pub struct Ov5 {
+    #[serde(default)]
+    pub id: Vec<u16>,
+    #[serde(default)]
+    pub idref: Vec<u16>,
+    #[serde(default)]
+    pub ids: Vec<OvLeaf>,
+    #[serde(default)]
+    pub i: Vec<OvLeaf>,
+    pub idx: String,
+}
+
 #[derive(Serialize, Deserialize, PartialEq, Debug, Clone)]
 pub enum OvVal {
     Ov(Ov),
     Ov2(Ov2),
     Ov3(Ov3),
     Ov4(Ov4),
+    Ov5(Ov5),
 }
 
 #[derive(Clone, Debug, Serialize, Deserialize, PartialEq)]
@@ -249,6 +265,7 @@ fn build(c: &Case) -> Option<Built> {
         OvVal::Ov2(v) => ser(v, &plain).ok()?,
         OvVal::Ov3(v) => ser(v, &plain).ok()?,
         OvVal::Ov4(v) => ser(v, &plain).ok()?,
+        OvVal::Ov5(v) => ser(v, &plain).ok()?,
     };
     let (open, units, close) = split_children(&doc)?;
     let mut nested_choices = c.nested_order.iter().copied();
@@ -305,6 +322,7 @@ fn de_with_limit(v: &OvVal, xml: &str, limit: Option<usize>, via_reader: bool, p
             OvVal::Ov2(_) => Ov2::deserialize(&mut de).map(OvVal::Ov2),
             OvVal::Ov3(_) => Ov3::deserialize(&mut de).map(OvVal::Ov3),
             OvVal::Ov4(_) => Ov4::deserialize(&mut de).map(OvVal::Ov4),
+            OvVal::Ov5(_) => Ov5::deserialize(&mut de).map(OvVal::Ov5),
         };
     }
     let mut de = quick_xml::de::Deserializer::from_str(xml);
@@ -319,6 +337,7 @@ fn de_with_limit(v: &OvVal, xml: &str, limit: Option<usize>, via_reader: bool, p
         OvVal::Ov2(_) => Ov2::deserialize(&mut de).map(OvVal::Ov2),
         OvVal::Ov3(_) => Ov3::deserialize(&mut de).map(OvVal::Ov3),
         OvVal::Ov4(_) => Ov4::deserialize(&mut de).map(OvVal::Ov4),
+        OvVal::Ov5(_) => Ov5::deserialize(&mut de).map(OvVal::Ov5),
     }
 }
 
@@ -386,6 +405,9 @@ pub fn check(c: &Case) -> Verdict {
     }
     if b.need > 1024 {
         v.classes.push(">1024-events-held");
+    }
+    if matches!(c.value, OvVal::Ov5(_)) {
+        v.classes.push("list-names-that-are-prefixes-of-each-other");
     }
     if matches!(c.value, OvVal::Ov4(_)) {
         v.classes.push("list-items-containing-names-of-sibling-lists");
@@ -554,6 +576,8 @@ fn value_strategy(max: usize) -> impl Strategy<Value = OvVal> {
             .prop_map(|(p, b, c, q, t)| OvVal::Ov3(Ov3 { p, b, c, q, t })),
         (prop::collection::vec(any::<u8>(), 0..=max.min(3)), prop::collection::vec(elem_string().prop_filter("non-empty", |s| !s.is_empty()), 0..=max.min(2)), prop::collection::vec((prop::collection::vec(any::<u8>(), 0..3), prop::collection::vec(elem_string().prop_filter("non-empty", |s| !s.is_empty()), 0..2)).prop_map(|(a, c)| OvGroup { a, c }), 0..=max.min(3)))
             .prop_map(|(a, c, g)| OvVal::Ov4(Ov4 { a, c, g })),
+        (prop::collection::vec(any::<u16>(), 0..=max.min(3)), prop::collection::vec(any::<u16>(), 0..=max.min(3)), prop::collection::vec((any_string(), elem_string()).prop_map(|(k, text)| OvLeaf { k, text }), 0..=max.min(2)), prop::collection::vec((any_string(), elem_string()).prop_map(|(k, text)| OvLeaf { k, text }), 0..=max.min(2)), elem_string())
+            .prop_map(|(id, idref, ids, i, idx)| OvVal::Ov5(Ov5 { id, idref, ids, i, idx })),
     ]
 }
 
@@ -612,6 +636,7 @@ fn run(ctx: &Ctx) {
                 OvVal::Ov2(x) => ser(x, &SerOpts::plain()),
                 OvVal::Ov3(x) => ser(x, &SerOpts::plain()),
                 OvVal::Ov4(x) => ser(x, &SerOpts::plain()),
+                OvVal::Ov5(x) => ser(x, &SerOpts::plain()),
             };
             doc.ok().and_then(|d| split_children(&d)).map_or(false, |(_, u, _)| u.len() >= 3 && u.len() <= 7)
         })
@@ -628,6 +653,7 @@ fn run(ctx: &Ctx) {
                 OvVal::Ov2(x) => ser(x, &SerOpts::plain()),
                 OvVal::Ov3(x) => ser(x, &SerOpts::plain()),
                 OvVal::Ov4(x) => ser(x, &SerOpts::plain()),
+                OvVal::Ov5(x) => ser(x, &SerOpts::plain()),
             }
             .unwrap();
             let (_, units, _) = split_children(&doc).unwrap();
